@@ -198,6 +198,48 @@ pub fn judge(docs: &[&DocEntry], el: &Element<String>, rank: u64) -> (Vec<Violat
 
 pub fn run(ctx: &Ctx) {
     ctx.set("exhaustive", json!(true));
+    let mut renders_c = 0u64;
+    let mut trees_c = 0u64;
+    // (c) element and attribute names taken from the option strings themselves (items and path segments
+    // of every derive string, the text identifiers, the prefixes), as written and in lower case
+    let mut words: Vec<String> = Vec::new();
+    for d in DERIVES {
+        for item in d.split(',') {
+            for seg in item.trim().split("::") {
+                words.push(seg.to_string());
+                words.push(seg.to_lowercase());
+            }
+        }
+    }
+    for t in TEXTS.iter().chain(PREFIXES.iter()) {
+        let w: String = t.chars().filter(|c| c.is_ascii_alphanumeric() || *c == '_').collect();
+        words.push(w);
+    }
+    words.retain(|w| !w.is_empty());
+    words.sort();
+    words.dedup();
+    let mut option_docs: Vec<String> = Vec::new();
+    for w in &words {
+        option_docs.push(format!("<{w} k=\"v\"/>", w = w));
+        option_docs.push(format!("<r><{w} k=\"v\">t</{w}></r>", w = w));
+        option_docs.push(format!("<r {w}=\"v\"><{w}><{w} k=\"v\"/></{w}>t</r>", w = w));
+    }
+    for (i, xml) in option_docs.iter().enumerate() {
+        let d = match DocEntry::from_xml(xml) {
+            Ok(d) => d,
+            Err(e) => {
+                ctx.machinery_error(format!("option-word document {} unreadable: {}", xml, e));
+                continue;
+            }
+        };
+        if let Ok(el) = run_history(&[&d]) {
+            let (vs, n) = judge(&[&d], &el, (2 << 40) | i as u64);
+            ctx.report_all(vs);
+            renders_c += n;
+            trees_c += 1;
+        }
+    }
+    ctx.set("option_word_documents", json!({"words": words.len(), "documents": option_docs.len()}));
     // (a) plain documents
     let sp = Space::new(plain_cfg(ctx.tier.pick(4, 5)));
     let res = par_for(
@@ -261,14 +303,14 @@ pub fn run(ctx: &Ctx) {
     if !res2.complete {
         ctx.set("exhaustive", json!(false));
     }
-    ctx.set("evaluations", json!(renders));
-    ctx.set("distinct_nontrivial", json!(trees));
+    ctx.set("evaluations", json!(renders + renders_c));
+    ctx.set("distinct_nontrivial", json!(trees + trees_c));
     ctx.set("option_tuples", json!(DERIVES.len() * PREFIXES.len() * TEXTS.len() * 2));
     ctx.set("plain_documents", json!({"space": sp.cfg.describe(), "size": sp.len(), "visited": res.processed}));
     ctx.set("named_trees", json!({"names": names.iter().map(|n| n.name).collect::<Vec<_>>(), "subsets": subs.len(), "subsets_done": res2.processed, "nodes_max": params.max_nodes, "decorated_max": params.max_decorated}));
     ctx.set(
         "rule",
-        json!("for every document: 9 derive strings (incl. a repeated trait, one without spaces, a blank one and one of 120 characters) x 5 attribute prefixes (one of them a leading substring of attribute names) x 4 text identifiers x 2 sort options, plus the two preset constructors and their derive() builder; each rendering is compared with the rendering under the quick-xml preset with the same sort: same structs, field identifiers, types and order; derive line verbatim on every struct or absent when empty; attribute fields bound to prefix + local name, children to their local name, text to the text identifier; no rename equal to the identifier. evaluations = renderings compared, distinct_nontrivial = distinct documents (trees) each rendered under all tuples"),
+        json!("(c) documents whose element and attribute names are the words of the option strings themselves (derive items and their path segments as written and in lower case, text identifiers, prefixes). for every document: 9 derive strings (incl. a repeated trait, one without spaces, a blank one and one of 120 characters) x 5 attribute prefixes (one of them a leading substring of attribute names) x 4 text identifiers x 2 sort options, plus the two preset constructors and their derive() builder; each rendering is compared with the rendering under the quick-xml preset with the same sort: same structs, field identifiers, types and order; derive line verbatim on every struct or absent when empty; attribute fields bound to prefix + local name, children to their local name, text to the text identifier; no rename equal to the identifier. evaluations = renderings compared, distinct_nontrivial = distinct documents (trees) each rendered under all tuples"),
     );
 }
 
